@@ -531,7 +531,7 @@ func gmSensor(r *rng, s *sink) [][]byte {
 		}
 	}
 	nsamp := r.intn(5)
-	if gmBigSensors && r.chance(1, 120) {
+	if gmBigSensors && r.chance(1, 300) {
 		// a long recording interval: the sensor payload passes 64 KiB (size x repeat beyond 16 bits),
 		// also with the largest repeat counts there are
 		nsamp = pick(r, []int{65536/(raw.w*sens.w) + 1 + r.intn(50), 32768, 65535})
@@ -867,6 +867,9 @@ func corpusGM(cfg *config) []string {
 		"read mut " + hexBytes(nest("STRM", klv("TYPE", 'c', 1, 5, []byte("Lffff")), append([]byte{'F', 'A', 'C', 'E', 0, 20, 0, 1}, klv("ABCD", 'B', 1, 12, make([]byte, 12))...))),
 		"read wf " + hexBytes(nil),
 		"read mut " + hexBytes([]byte{1, 2, 3}),
+		// a sensor payload just beyond 64 KiB (size x repeat does not fit 16 bits), and the largest repeat count
+		"read wf " + hexBytes(nest("DEVC", nest("STRM", klv("SCAL", 's', 2, 1, []byte{0, 2}), klv("ACCL", 's', 6, 10923, bytes.Repeat([]byte{0, 10, 0, 20, 0, 30}, 10923))))),
+		"read wf " + hexBytes(nest("DEVC", nest("STRM", klv("SHUT", 'B', 1, 65535, bytes.Repeat([]byte{7}, 65535))))),
 		// sensor elements at the top level of a payload (no device, no stream around them)
 		"read wf " + hexBytes(append(klv("SCAL", 's', 2, 1, []byte{0, 2}), klv("ACCL", 's', 6, 2, []byte{0, 10, 0, 20, 0, 30, 0, 40, 0, 50, 0, 60})...)),
 		"read wf " + hexBytes(klv("GYRO", 's', 6, 1, []byte{0, 1, 0, 2, 0, 3})),
